@@ -76,6 +76,7 @@ class Engine:
         self.spec_mode = 0
         self.axioms = []
         self._axiom_keys = set()
+        self.augassign_models = {}
         # path-feasibility queries leave the ghost-function axioms out: a path that is only
         # infeasible because of them is explored anyway and its obligations are discharged
         # (with the axioms) as vacuously true -- sound, and much cheaper
@@ -945,6 +946,16 @@ class Engine:
 
         def k(s, vals):
             cur, rhs = vals
+            if isinstance(cur, Ref) and isinstance(s.cell(cur), ObjCell) and s.cell(cur).cls in self.augassign_models:
+                res = self.augassign_models[s.cell(cur).cls](self, s, cur, stmt.op, rhs)
+                out = []
+                for s2, nv in res:
+                    out.extend(self.assign(s2, t, nv))
+                return out
+            if isinstance(stmt.op, ast.Add) and isinstance(cur, Ref) and isinstance(s.cell(cur), ListCell) \
+                    and not s.cell(cur).items and isinstance(rhs, Ref) and isinstance(s.cell(rhs), ObjCell) \
+                    and s.cell(rhs).cls in self.seq_models:
+                return self.assign(s, t, rhs)       # [] += <symbolic sequence>
             # list += iterable mutates in place
             if isinstance(stmt.op, ast.Add) and isinstance(cur, Ref) and isinstance(s.cell(cur), ListCell):
                 items = self.iter_concrete(s, rhs)
